@@ -5,8 +5,8 @@ import os
 import re
 
 HERE = os.path.dirname(os.path.dirname(os.path.abspath(__file__)))
-THOROUGH = {"C01": 87.8, "C02": 48.8, "C03": 482.1, "C04": 129.4, "C05": 74.8, "C06": 17.2, "C07": 73.7, "C08": 81.1, "C09": 64.7, "C10": 115.6,
-            "C11": 45.4, "C12": 69.6, "C13": 173.9, "C14": 164.5, "C15": 392.7, "C16": 189.4, "C17": 167.6, "C18": 103.4, "C19": 55.0, "C20": 230.9}
+THOROUGH = {"C01": 180.4, "C02": 92.0, "C03": 482.1, "C04": 178.2, "C05": 110.6, "C06": 43.9, "C07": 111.0, "C08": 103.8, "C09": 99.8, "C10": 142.1,
+            "C11": 87.1, "C12": 134.2, "C13": 204.2, "C14": 154.6, "C15": 413.3, "C16": 192.5, "C17": 195.3, "C18": 102.6, "C19": 52.5, "C20": 243.8}
 kf = json.load(open(os.path.join(HERE, "known_findings.json")))["findings"]
 rows = ["| id | level | quick wall | thorough wall | quick: evaluations / distinct | fixes found by this check | known findings still printed |",
         "|----|-------|-----------|---------------|------------------------------|---------------------------|------------------------------|"]
